@@ -21,7 +21,7 @@ var c13NumSpellings = map[string][]string{
 	"100": {"100", "1e2", "1.0E+2", "100.0"},
 }
 
-var c13StrKeys = []string{"", "a", "b", "ab", "é", "z", "～", "\U0001f600", "", "\U00010000", "A", "日本"}
+var c13StrKeys = []string{"", "a", "b", "ab", "ab\x00", "a\x00", "a\x00\x00", "\x00", "ab\x01", "abcdefgh", "abcdefgh\x00", "abcdefghi", "abcdefg", "é", "z", "～", "\U0001f600", "", "\U00010000", "A", "日本"}
 
 // near-ties at the 34th digit
 var c13NearTies = []string{"1.000000000000000000000000000000001", "1.000000000000000000000000000000002", "1", "0.9999999999999999999999999999999999"}
